@@ -75,6 +75,7 @@ M = [
  ("c11_guard_16m", "src/block_handler/mod.rs", [("const MAXIMUM_UNCOMMITTED_BUFFER_RESERVE_LENGTH: usize = 16 * 1024;", "const MAXIMUM_UNCOMMITTED_BUFFER_RESERVE_LENGTH: usize = 16 * 1024 * 1024;")], ["C11"]),
  ("c11_guard_inverted", "src/block_handler/mod.rs", [("        if extend_len > maximum_reserve_len {", "        if extend_len < maximum_reserve_len {")], ["C11"]),
  ("c11_div_unguarded", "src/block_handler/mod.rs", [("                let num = reply_start_offset\n                    .checked_div(negotiated_block_size)", "                let num = Some(reply_start_offset / negotiated_block_size)")], ["C11"]),
+ ("c12_static_counter", "src/block_handler/mod.rs", [("const BLOCK_OPTIONS_MAX_LENGTH: usize = 12;", "const BLOCK_OPTIONS_MAX_LENGTH: usize = 12;\nstatic TRANSFERS_SEEN: core::sync::atomic::AtomicUsize =\n    core::sync::atomic::AtomicUsize::new(0);"), ("        let state = self\n            .states\n            .entry(request.deref().into())\n            .or_insert(BlockState::default());\n        if let Some(ref mut response) = request.response {", "        TRANSFERS_SEEN.fetch_add(1, core::sync::atomic::Ordering::Relaxed);\n        let state = self\n            .states\n            .entry(request.deref().into())\n            .or_insert(BlockState::default());\n        if let Some(ref mut response) = request.response {")], ["C12"]),
  ("c12_requester_none", "src/block_handler/mod.rs", [("            requester: request.source.clone(),", "            requester: None,")], ["C12"]),
  ("c12_path_joined", "src/block_handler/mod.rs", [("            path: request.get_path_as_vec().unwrap_or_default(),", "            path: request.get_path().split('/').map(String::from).collect(),")], ["C12"]),
  ("c12_clone_header", "src/block_handler/mod.rs", [("        dst.header.code = src.header.code;\n", "        dst.header.code = src.header.code;\n        dst.header.message_id = src.header.message_id;\n")], ["C12"]),
